@@ -68,6 +68,7 @@ Print Assumptions C15_group_operations_are_int_sym.
 From Coq Require Import Floats.
 From Flocq Require Import Core BinarySingleNaN PrimFloat.
 From PV Require Import proofs.FloatFacts proofs.WrapFloat.
+From PV Require Import proofs.PackingFacts.
 
 Theorem C15_F_wrap_range :
   forall x : F, is_finite (Prim2B x) = true -> (Rabs (B2R (Prim2B x)) <= 2251799813685248)%R ->
@@ -87,4 +88,16 @@ Theorem C15_ffmod1_range :
     (Prim2B (ffmod1 x)) < 1)%R /\ ((0 <= B2R (Prim2B x))%R -> (0 <= B2R (Prim2B (ffmod1 x)))%R).
 Proof. exact ffmod1_range. Qed.
 Print Assumptions C15_ffmod1_range.
+
+
+Theorem C15_copies_count :
+  forall st : pstateR, copies st = length (p_sites NumR st) * length (p_syms NumR st).
+Proof. exact copies_count. Qed.
+Print Assumptions C15_copies_count.
+
+Theorem C15_every_copy_is_a_placement :
+  forall (st : pstateR) (p : tfR), In p (relative_positions NumR st) -> exists (sym : tfR) (s :
+    siteR), In sym (p_syms NumR st) /\ In s (p_sites NumR st) /\ p = placement sym s.
+Proof. exact rel_members. Qed.
+Print Assumptions C15_every_copy_is_a_placement.
 
